@@ -55,7 +55,7 @@ EXC = {"ValueError": ValueError, "VfModelError": VfModelError, "ZeroDivisionErro
 QUICK_EXC = ["ValueError", "VfModelError"]
 
 SCHEMES = {
-    "unlinked": {"link": False, "relation": "iv"},
+    "unlinked": {"link": False, "relation": "iv", "layout": "gm", "weights": "ds_all"},  # data stored as (global, model), weighted
     "linked": {"link": True, "dscale": "second", "penalty": "yes"},
     "nonneg": {"nds": 1},
     "two_groups": {"groups": "two", "nds": 3},
